@@ -103,6 +103,13 @@ def oracle_entry(x):
         out.append([enc(str(pd.Timedelta(x)))])
     except Exception:       # noqa
         out.append([])
+    try:
+        import warnings
+        with warnings.catch_warnings():
+            warnings.simplefilter("ignore")
+            out.append([enc(canon_float(np.float32(x)))])
+    except Exception:       # noqa
+        out.append([])
     return out
 
 
@@ -124,7 +131,7 @@ def kind_of_meta(m):
         if t.startswith(pre) and t[len(pre):].isdigit():
             return [0, sg, int(t[len(pre):])]
     if t.startswith("float"):
-        return [3]
+        return [3, t == "float32"]
     if t.startswith("datetime64"):
         return [4, t == "datetime64[ns]"]
     return [2]
@@ -134,22 +141,36 @@ def kind_of_dtype(dt):
     """dtype of a frame column -> (model kind, value-kind letter the read must yield)"""
     if isinstance(dt, pd.CategoricalDtype):
         return [5], None
-    k = np.dtype(dt).kind if not isinstance(dt, pd.api.extensions.ExtensionDtype) else "O"
+    if isinstance(dt, pd.DatetimeTZDtype):
+        return [4, dt.unit == "ns"], "t"
+    if isinstance(dt, pd.api.extensions.ExtensionDtype):
+        n = str(dt)
+        if n == "boolean":
+            return [1], "b"
+        if n.startswith(("Int", "UInt")):
+            return [0, n.startswith("Int"), int(n.lstrip("UInt"))], "i"
+        if n.startswith("Float"):
+            return [3, n == "Float32"], "f"
+        return [2], "s"
+    k = np.dtype(dt).kind
     if k == "b":
         return [1], "b"
     if k in "iu":
         return [0, k == "i", np.dtype(dt).itemsize * 8], "i"
     if k == "f":
-        return [3], "f"
+        return [3, np.dtype(dt).itemsize == 4], "f"
     if k == "M":
         return [4, str(dt) == "datetime64[ns]"], "t"
     return [2], "s"
 
 
 # ----------------------------------------------------------------------------- typed model values
-def model_value(v, is_cat=False):
-    """a non-null key as pandas' groupby hands it to the writer -> model value s-expression"""
+def model_value(v, is_cat=False, text=None):
+    """a non-null key as pandas' groupby hands it to the writer -> model value s-expression
+    (text: the spelling str(key) has, when the caller knows it: np.float32 keys of nullable Float32 columns)"""
     c = canon(v)
+    if text is not None and c[0] == "f":
+        return [6, [3, enc(text)]] if is_cat else [3, enc(text)]
     if c[0] == "i":
         mv = [0, c[1]]
     elif c[0] == "b":
@@ -179,7 +200,26 @@ def col_to_data(s):
         cats = list(dt.categories)
         return {"dtype": "category", "categories": [canon(c) for c in cats],
                 "codes": [int(c) for c in s.cat.codes]}
-    k = np.dtype(dt).kind if not isinstance(dt, pd.api.extensions.ExtensionDtype) else "O"
+    if isinstance(dt, pd.DatetimeTZDtype):
+        u = s.dt.tz_convert("UTC").dt.tz_localize(None)
+        return {"dtype": "datetimetz", "unit": dt.unit, "tz": str(dt.tz),
+                "values": [None if is_null(v) else int(v) for v in u.values.astype("int64").tolist()],
+                "nat": [bool(b) for b in np.isnat(u.values)]}
+    if isinstance(dt, pd.api.extensions.ExtensionDtype):
+        vals = []
+        for v in s.tolist():
+            if is_null(v):
+                vals.append(None)
+            elif isinstance(v, (bool, np.bool_)):
+                vals.append(bool(v))
+            elif isinstance(v, (int, np.integer)):
+                vals.append(int(v))
+            elif isinstance(v, (float, np.floating)):
+                vals.append(["f", float(v).hex()])
+            else:
+                vals.append(str(v))
+        return {"dtype": str(dt), "ext": True, "values": vals}
+    k = np.dtype(dt).kind
     if k == "M":
         return {"dtype": str(dt), "values": [None if is_null(v) else int(v) for v in s.values.astype("int64").tolist()],
                 "nat": [bool(b) for b in np.isnat(s.values)]}
@@ -197,6 +237,13 @@ def col_from_data(d):
         for k, v in d["categories"]:
             cats.append({"i": int, "s": str, "f": float, "b": bool}.get(k, str)(v) if k != "t" else pd.Timestamp(v))
         return pd.Categorical.from_codes(d["codes"], categories=cats)
+    if d.get("ext"):
+        return pd.array([float.fromhex(v[1]) if isinstance(v, list) else v for v in d["values"]], dtype=dt)
+    if dt == "datetimetz":
+        a = np.array([0 if v is None else v for v in d["values"]], dtype="int64").astype("datetime64[%s]" % d["unit"])
+        if d["values"]:
+            a[np.array(d["nat"], dtype=bool)] = np.datetime64("NaT")
+        return pd.Series(a).dt.tz_localize("UTC").dt.tz_convert(d["tz"])
     if dt.startswith("datetime64"):
         a = np.array([0 if v is None else v for v in d["values"]], dtype="int64").astype(dt)
         if d["values"]:
@@ -250,6 +297,22 @@ def key_text(v, hive):
         v = pd.Timestamp(v)
         return v.isoformat() if hive else str(v)
     return str(v)
+
+
+def key_texts(v, hive):
+    """the texts the writer may put into the directory name for key v: pandas hands a numpy float32 column's
+    keys over widened to Python floats but a nullable Float32 column's keys as np.float32 - both spell the key"""
+    alts = [key_text(v, hive)]
+    if isinstance(v, np.floating):
+        alts.append(str(v))
+    return alts
+
+
+def num_norm(c):
+    """drill levels mixing integers and floats come back through one pandas category index (all floats)"""
+    if isinstance(c, list) and len(c) == 2 and c[0] in ("i", "f") and c[1] not in ("nan", "inf", "-inf"):
+        return ["num", float(c[1])]
+    return c
 
 
 def legal_text(t, drill):
